@@ -36,7 +36,8 @@ TInterval1 == /\ IsEvent("interval1")
               /\ LET t == Tr[l] IN
                  /\ t.exact /\ t.inside = (2 * t.l1 <= t.p2 /\ t.p2 <= 2 * t.u1)
                  /\ t.rl = Min2(t.l1, t.l2) /\ t.ru = Max2(t.u1, t.u2) /\ t.w = t.u1 - t.l1 /\ t.c2 = t.l1 + t.u1
-TraceNext == TInterval1 \/ TReset \/ TAabb \/ TObb \/ TInclude \/ TExtent
+TGeneric == IsEvent("generic") /\ GenericOK(Tr[l])
+TraceNext == TGeneric \/ TInterval1 \/ TReset \/ TAabb \/ TObb \/ TInclude \/ TExtent
 TraceSpec == TraceInit /\ [][TraceNext]_l
 TraceAccepted == TLCGet("stats").diameter - 1 = Len(Tr)
 =============================================================================
